@@ -53,6 +53,18 @@ PROPS.update({
     "C10": _b("bounded run-time contract checking of the projections and the simplicial complex against set-builder definitions",
               "networkx-based code is outside the deductive engine; every clause of the statement is evaluated on all small hypergraphs (and directed ones) of a stated scope and on "
               "seeded random ones, for all 12 (distance, threshold, weighted) configurations.", "DESIGN.md §7 C10"),
+    "C05": dict(level="exploration",
+                technique="contract-based deductive verification (AST->VC, z3) of Hypergraph.subhypergraph / subhypergraph_by_orders / copy + bounded run-time contract checking of every extraction route",
+                text=("The induced sub-hypergraph, the extraction by sizes and copy() carry contracts (exactly the selected hyperedges with original weights and metadata, "
+                      "documented node set with original node metadata, same weightedness, source unmodified) discharged for all inputs through loop invariants over the "
+                      "contracted add_edge/add_nodes/set_*_metadata; get_edges(subhypergraph=True), the largest component and copy-independence are covered by the bounded tier."),
+                design_ref="DESIGN.md §7 C05", assumptions=["copy.deepcopy: equal value, no sharing (assumed library contract; independence checked in the bounded tier)"]),
+    "C14": _b("bounded run-time contract checking of the random generators over a parameter grid and many seeds",
+              "numpy/random based generators are outside the deductive engine; structural contracts and same-seed reproducibility are evaluated for every parameter "
+              "combination of a stated grid and seeds 0..19 (quick) / 0..199 (thorough).", "DESIGN.md §7 C14"),
+    "C18": _b("bounded run-time contract checking of the random-walk operators (exact rationals as oracle) and of the contagion (exact synchronous reference for rates in {0,1})",
+              "Floating point / numpy code: bounded exploration over all connected hypergraphs on <= 5 nodes and all initial conditions, horizons and rate triples of a stated grid.",
+              "DESIGN.md §7 C18"),
     "C20": _b("bounded run-time contract checking of the centralities against networkx on independently built projections, expm, and eigen-equation residuals",
               "Floating point and networkx delegation: bounded exploration only. CEC/HEC are judged only where an independent long-run iteration converges.", "DESIGN.md §7 C20"),
 })
